@@ -56,6 +56,22 @@ def sigAsDemanded (demand : Bool) (alg dig : Option String) (s : Option SigInfo)
   | none => !demand
   | some i => demand && alg.all (· == i.sigAlg) && dig.all (· == i.digestAlg)
 
+/-! ### what a configuration value demands -/
+
+/-- The forms whose meaning is not in doubt: booleans, the documented textual forms "true" / "false",
+    "True", the empty string, integers.  Any other string (e.g. "False", "no") is read as true by the
+    code; the property cannot say what such a spelling demands. -/
+def formDefined : CfgVal → Bool
+  | .str s => s == "true" || s == "false" || s == "True" || s == ""
+  | _ => true
+
+/-- What a configuration value of a defined form demands (`none` = says nothing). -/
+def cfgReading : CfgVal → Option Bool
+  | .unset => none
+  | .bool b => some b
+  | .str s => some (s == "true" || s == "True")
+  | .int n => some (n != 0)
+
 /-! ### the scoping clauses -/
 
 variable {W : Type}
